@@ -54,8 +54,8 @@ def batch(ctx, name, parts):
 
 
 def mid_graphs(ctx, n5, n6, w=W3):
-    walks = ctx.tlc_gen("MC_Algo", gen("{5}", 7, w=w, canon="FALSE", emit="", inv="SimEmit"), "mid5", simulate=(n5, 13), workers=2)
-    walks += ctx.tlc_gen("MC_Algo", gen("{6}", 9, w=w, canon="FALSE", emit="", inv="SimEmit"), "mid6", simulate=(n6, 16), workers=2)
+    walks = ctx.tlc_gen("MC_Algo", gen("{5}", 7, w=w, canon="FALSE", emit="", inv="SimEmit"), "mid5", simulate=(n5, 13), workers=1)
+    walks += ctx.tlc_gen("MC_Algo", gen("{6}", 9, w=w, canon="FALSE", emit="", inv="SimEmit"), "mid6", simulate=(n6, 16), workers=1)
     return walks
 
 
